@@ -1683,7 +1683,10 @@ pub fn from_reader_with_options<'a, R: std::io::Read + 'a, T: DeserializeOwned>(
 
     // Helper to attach snippet to an error using the RingReader's context
     let attach_snippet = |e: Error| -> Error {
-        if crop_radius == 0 {
+        // The ring retains the raw bytes in front of the transcoding decoder: for UTF-16 input
+        // they are not text (a snippet cut from them shows every other character as a blank,
+        // with the marker under the wrong one).
+        if crop_radius == 0 || shared_ring.starts_with_utf16_bom() {
             return e;
         }
         match shared_ring.get_recent() {
